@@ -356,7 +356,7 @@ func c14Gen(r *sim.Rand, tier string) *sim.Case {
 		case 1:
 			cs.Ops = append(cs.Ops, sim.Op{K: "up"})
 		case 2:
-			cs.Ops = append(cs.Ops, sim.Op{K: "sleep", A: []int64{int64(r.N(12)), int64(r.N(5))}})
+			cs.Ops = append(cs.Ops, sim.Op{K: "sleep", A: []int64{int64(r.N(14)), int64(r.N(5))}})
 		case 3:
 			cs.Ops = append(cs.Ops, sim.Op{K: "loss", A: []int64{int64(r.Range(1, 4))}})
 		case 4:
@@ -447,7 +447,9 @@ func c14Run(c *sim.Ctx) {
 	iv, thr := w.hcfg.CheckInterval, time.Duration(w.hcfg.FailureThreshold)
 	fd, fbd, gp := w.fcfg.FailoverDelay, w.fcfg.FailbackDelay, w.fcfg.GracePeriod
 	bases := []time.Duration{time.Second, iv, thr * iv, thr*iv + fd - iv, thr*iv + fd, thr*iv + fd + iv, fd, fd + gp, gp,
-		fbd - iv, fbd, fbd + gp, 2 * (fbd + fd)}
+		fbd - iv, fbd, fbd + gp, 2 * (fbd + fd),
+		// from an "up" op: so that the next down is reported inside the failback grace period
+		fbd + (time.Duration(w.hcfg.RecoveryThreshold)-thr)*iv + gp/2}
 	jit := []time.Duration{0, -time.Second, time.Second, 2500 * time.Millisecond, -300 * time.Millisecond}
 	partition := false
 
@@ -491,6 +493,7 @@ func c14Run(c *sim.Ctx) {
 			st := w.fc.State()
 			err := w.fc.ForceFailover("operator")
 			c.S.Logf("ForceFailover in state %s -> %v", st, err)
+			c.S.Probe("force_failover_in_" + st.String())
 			if err == nil {
 				w.forcePending = true
 				if w.forceCtx == "" {
@@ -502,6 +505,7 @@ func c14Run(c *sim.Ctx) {
 			st := w.fc.State()
 			err := w.fc.ForceFailback("operator")
 			c.S.Logf("ForceFailback in state %s -> %v", st, err)
+			c.S.Probe("force_failback_in_" + st.String())
 			c.OpsDone++
 		case "cbfail":
 			w.cbFailNext += int(op.Arg(0))
@@ -552,7 +556,7 @@ func init() {
 			"ha.HealthMonitor (monitorLoop, performCheck, thresholds, event emission)", "ha.HASyncer.handleHealth on the partner", "net/http.Client timeouts"},
 		Stub: []string{"network between the nodes (scn.vhNet)", "role-change callback (harness: ok / error / slow per case and tape)"},
 		Rule: "cases: 4-24 ops {partner down (partition: probes time out | crash: probes refused), up, sleep around threshold*interval, failover delay +-1 probe, grace, failback delay, lost probes, ForceFailover, ForceFailback, callback fail/slow} over default and varied Health/Failover configs, then a settle period; non-trivial = >=3 completed operations and (a fault fired or >2 context switches); distinct = distinct (case hash, schedule fingerprint)",
-		QuickRuns:    2500,
+		QuickRuns:    6000,
 		ThoroughRuns: 300000,
 		Assumptions: []string{"a promotion is forced when a ForceFailover call returned nil and the controller has not been observed at rest (role standby, state normal) since; only unforced promotions are held to the sustained-failure clause",
 			"partner reported down/up = the HealthMonitor's partner_down/partner_up events; a recovery exactly at the instant the delay expires may go either way",
